@@ -83,6 +83,16 @@ def inputs(ctx):
                 if ctx.quick and (k + len(r[0])) % 2:
                     continue
                 ins.append({"id": "x%d-%s-%s" % (k, src, r[0]), "k": "spans", "nodes": nodes, "route": r, "src": src})
+    # spans that only REFER to styles (DFXP style="id", lists of ids, a style built on another;
+    # SAMI class="name" with the rule in the style sheet)
+    for k, nodes in enumerate(base if not ctx.quick else base[::4]):
+        for src, modes in (("DFXP", ("single", "list", "chain")), ("SAMI", ("single",))):
+            for mode in modes:
+                for r in (["DFXP"], ["SAMI"], ["WebVTT"]):
+                    if ctx.quick and (k + len(mode) + len(r[0])) % 3:
+                        continue
+                    ins.append({"id": "rf%d-%s-%s-%s" % (k, src, mode, r[0]), "k": "spans", "nodes": nodes, "route": r,
+                                "src": src, "refs": mode})
     # a caption that is italic as a whole through the style class it names, in a document that also has a
     # style called "p" (DFXP writers)
     plain = [c["nodes"] for c in ctx._cases if not any(n["t"] == "S" for n in c["nodes"])]
@@ -144,6 +154,55 @@ def _set_from_nodes(nodes, capclass=False):
 
 def _esc(text):
     return text.replace("&", "&amp;").replace("<", "&lt;").replace(">", "&gt;")
+
+
+COMBO = {"i": ("tts:fontStyle", "italic", "font-style", "italic"), "b": ("tts:fontWeight", "bold", "font-weight", "bold"),
+         "u": ("tts:textDecoration", "underline", "text-decoration", "underline")}
+
+
+def _ref_doc_from_nodes(nodes, kind, mode):
+    """the node stream as a document whose spans carry no properties of their own but REFER to styles:
+    DFXP style="id" (mode single: one style per combination; list: style="s_i s_b"; chain: s_ib is
+    defined as style="s_i" plus bold), SAMI class="name" with the rules in the style sheet"""
+    from . import render
+    combos = sorted({"".join(sorted(n["st"])) for n in nodes if n["t"] == "S" and n["st"]})
+    out = []
+    for n in nodes:
+        if n["t"] == "T":
+            out.append(_esc("".join(chr(c) for c in n["s"])))
+        elif n["t"] == "BR":
+            out.append("<br/>")
+        elif n["on"]:
+            key = "".join(sorted(n["st"]))
+            if not key:
+                out.append("<span>")
+            elif kind == "DFXP":
+                ref = " ".join("s_" + x for x in key) if mode == "list" else "s_" + key
+                out.append('<span style="%s">' % ref)
+            else:
+                out.append('<span class="s_%s">' % key)
+        else:
+            out.append("</span>")
+    body = "".join(out)
+    if kind == "DFXP":
+        defs = []
+        need = set(combos)
+        if mode in ("list", "chain"):
+            need |= {x for c in combos for x in c}
+        for c in sorted(need):
+            if mode == "chain" and len(c) > 1:
+                # the first property comes from the style referred to, the rest are the style's own
+                own = " ".join('%s="%s"' % COMBO[x][:2] for x in c[1:])
+                defs.append('<style xml:id="s_%s" style="s_%s" %s/>' % (c, c[0], own))
+            elif mode == "list" and len(c) > 1:
+                continue
+            else:
+                defs.append('<style xml:id="s_%s" %s/>' % (c, " ".join('%s="%s"' % COMBO[x][:2] for x in c)))
+        return render.dfxp_doc([("en-US", [('begin="00:00:01.000" end="00:00:02.000"', body)])],
+                               head="<styling>%s</styling>" % "".join(defs))
+    css = "\n".join(".s_%s {%s}" % (c, " ".join("%s: %s;" % COMBO[x][2:] for x in c)) for c in combos)
+    doc = render.sami_doc([("ENCC", "en-US")], [("1000", [("ENCC", body)]), ("2000", [("ENCC", "&nbsp;")])])
+    return doc.replace("-->", css + "\n-->", 1)
 
 
 def _doc_from_nodes(nodes, kind):
@@ -219,6 +278,8 @@ class _SamiTok(HTMLParser):
             if tag in ("i", "b", "u"):
                 st.add(tag)
             css = (a.get("style") or "").replace(" ", "").lower()
+            for cls in (a.get("class") or "").lower().split():
+                css += ";" + getattr(self, "rules", {}).get(cls, "")
             if "font-style:italic" in css:
                 st.add("i")
             if "font-weight:bold" in css:
@@ -242,12 +303,23 @@ class _SamiTok(HTMLParser):
             self.cur.append({"k": "text", "s": [ord(c) for c in data]})
 
 
+def _dfxp_chain(el, styles_by_id, depth=0):
+    """the element and every style it refers to (style="a b"), transitively"""
+    out = [el]
+    if depth < 8:
+        for ref in (el.get("style") or "").split():
+            if ref in styles_by_id:
+                out += _dfxp_chain(styles_by_id[ref], styles_by_id, depth + 1)
+    return out
+
+
 def tokens_dfxp(out):
     root, err = scan.parse_xml_strict(out)
     if root is None:
         return False, []
     p = root.find(".//%sp" % scan.TT)
     toks = []
+    styles_by_id = {el.get(scan.XMLNS + "id"): el for el in root.iter(scan.TT + "style")}
 
     def walk(el):
         if el.text:
@@ -257,12 +329,13 @@ def tokens_dfxp(out):
                 toks.append({"k": "br"})
             else:
                 st = []
-                if ch.get(scan.TTS + "fontStyle") == "italic":
-                    st.append("i")
-                if ch.get(scan.TTS + "fontWeight") == "bold":
-                    st.append("b")
-                if "underline" in (ch.get(scan.TTS + "textDecoration") or ""):
-                    st.append("u")
+                for el in _dfxp_chain(ch, styles_by_id):
+                    if el.get(scan.TTS + "fontStyle") == "italic" and "i" not in st:
+                        st.append("i")
+                    if el.get(scan.TTS + "fontWeight") == "bold" and "b" not in st:
+                        st.append("b")
+                    if "underline" in (el.get(scan.TTS + "textDecoration") or "") and "u" not in st:
+                        st.append("u")
                 toks.append({"k": "open", "st": st, "n": "span"})
                 walk(ch)
                 toks.append({"k": "close", "n": "span"})
@@ -284,8 +357,17 @@ def tokens_dfxp(out):
     return True, toks
 
 
+_CSS_RULE = re.compile(r"[.#]([\w-]+)\s*\{([^}]*)\}")
+
+
 def tokens_sami(out):
     t = _SamiTok()
+    t.rules = {}
+    m = re.search(r"<style[^>]*>(.*?)</style>", out, re.S | re.I)
+    if m:
+        for name, body in _CSS_RULE.findall(m.group(1)):
+            t.rules.setdefault(name.lower(), "")
+            t.rules[name.lower()] += body.replace(" ", "").lower() + ";"
     t.feed(out)
     t.close()
     return True, (t.ps[0] if t.ps else [])
@@ -339,7 +421,9 @@ def execute(inp):
             for c in cs.get_captions(lg):
                 caps.append(project_nodes(c))
         return {"k": "balanced", "caps": caps}
-    if inp.get("src") in ("SAMI", "DFXP"):
+    if inp.get("src") in ("SAMI", "DFXP") and inp.get("refs"):
+        cs = READERS[inp["src"]]().read(_ref_doc_from_nodes(inp["nodes"], inp["src"], inp["refs"]))
+    elif inp.get("src") in ("SAMI", "DFXP"):
         cs = READERS[inp["src"]]().read(_doc_from_nodes(inp["nodes"], inp["src"]))
     else:
         cs = _set_from_nodes(inp["inner"] if inp.get("capclass") else inp["nodes"], inp.get("capclass", False))
@@ -369,6 +453,9 @@ def signature(inp, rec, clause):
     sig = {"clause": clause.split("@")[0]}
     if "@" in clause:
         sig["route"] = clause.split("@")[1]
+    if inp.get("refs"):
+        sig["refs"] = inp["src"] + ":" + inp["refs"]
+        sig["multi"] = any(len(n["st"]) > 1 for n in inp["nodes"] if n["t"] == "S")
     return sig
 
 
